@@ -331,8 +331,34 @@ fn odd_content(t: &mut crate::supply::SupplyTrace, r: &mut Rng) -> String {
             "ODD-EMPTY-LAYOUT".into()
         }
         8 => {
-            // a delegated level that refers to itself through a symlinked sub-directory
-            "none".into()
+            // a delegated level that refers to itself: the functionary's evidence for step s is a
+            // layout that again has a step s for which he is authorized, and its sub-directory is a
+            // symbolic link back to the directory it lies in
+            if t.root.layout.steps.is_empty() || t.root.files.is_empty() {
+                return "none".into();
+            }
+            let fi = r.idx(t.root.files.len());
+            let (k, fname) = match (&t.root.files[fi].body, t.root.files[fi].doc.signers.first()) {
+                (Body::Link(_), Some(k)) => (*k, t.root.files[fi].name.clone()),
+                _ => return "none".into(),
+            };
+            let sname = fname.split('.').next().unwrap_or("").to_string();
+            let inner = LevelSpec {
+                layout: LayoutSpec {
+                    expires: t.root.layout.expires.clone(),
+                    readme: String::new(),
+                    key_table: vec![k],
+                    steps: vec![StepSpec { name: sname.clone(), threshold: 1, pubkeys: vec![k], exp_mat: vec![], exp_prod: vec![], cmd: vec![] }],
+                    inspect: vec![],
+                },
+                doc: DocSpec { signers: vec![k], ops: vec![], pretty: false },
+                files: vec![],
+                subdir: String::new(),
+            };
+            t.root.files[fi].body = Body::Layout(Box::new(inner));
+            let dir = fname.trim_end_matches(".link").to_string();
+            t.file_faults.push(FileFault { path: dir, kind: FileFaultKind::NewSymlink { target: ".".into() } });
+            "ODD-SELF-DELEGATION".into()
         }
         9 => {
             let exps = ["9999-12-31T23:59:60Z", "0000-01-01T00:00:00Z", "2026-02-30T00:00:00Z", "2026-01-01T24:00:00Z", "+10000-01-01T00:00:00Z", "2026-01-01T00:00:00+24:00", "2026-01-01T00:00:00.Z", "2026-01-01", ""];
@@ -375,7 +401,7 @@ pub fn run_c14(tier: Tier, seed: u64, index: u64, scratch: &Scratch, rec: &mut R
             if kind == 0 {
                 // storage faults on the link directory, before any signature is checked
                 let n = 1 + r.weighted(&[40, 30, 20, 10]);
-                let fs = [F::ByteFlip, F::ByteTrunc, F::ByteOverwrite, F::Garbage, F::IsDir, F::Dangling, F::DupFile, F::OddFileName, F::OddFileName, F::ByteOverwrite, F::ByteFlip];
+                let fs = [F::ByteFlip, F::ByteTrunc, F::ByteOverwrite, F::Garbage, F::IsDir, F::Dangling, F::DupFile, F::OddFileName, F::OddFileName, F::Fifo, F::ByteOverwrite, F::ByteFlip];
                 let mut applied = 0;
                 let mut tries = 0;
                 while applied < n && tries < 10 {
